@@ -5,15 +5,12 @@ set -e
 cd "$(dirname "$0")"
 export CARGO_NET_OFFLINE=true
 cd coq
-find . -name '*.v' | sed 's|^\./||' | sort > .filelist.tmp
-coq_makefile -f _CoqProject $(cat .filelist.tmp) -o Makefile
-tr '\n' '\n' < .filelist.tmp | sed '$!b' > /dev/null
 python3 - <<'PY'
-import glob, os
+import glob, os, subprocess
 vs = sorted(os.path.relpath(f, '.') for f in glob.glob('**/*.v', recursive=True))
+subprocess.check_call(['coq_makefile', '-f', '_CoqProject'] + vs + ['-o', 'Makefile'])
 open('.filelist', 'w').write('\n'.join(vs))
 PY
-rm -f .filelist.tmp
 timeout 3000 make -j16
 cd ..
 sh eval/build.sh
